@@ -417,13 +417,11 @@ class Inliner(object):
     f = call.func
     if isinstance(f, ast.Attribute) and isinstance(f.value, ast.Name):
       recv = f.value.id
-      if cls_name is None:
-        return None
-      ms = self.class_methods.get(cls_name, {})
+      ms = self.class_methods.get(cls_name, {}) if cls_name else {}
       fn = ms.get(f.attr)
-      if fn is None:
-        return None
-      if recv in ('self', 'cls') or recv == cls_name:
+      if not (recv in ('self', 'cls') or recv == cls_name):
+        fn = None  # handled below as a foreign receiver
+      if fn is not None and (recv in ('self', 'cls') or recv == cls_name):
         if self.method_names.get(f.attr, 0) != 1:
           return None  # another class of the module defines it too
         q = '%s.%s' % (cls_name, f.attr)
@@ -437,6 +435,20 @@ class Inliner(object):
         if recv == cls_name and k == 'instance':
           return None
         return fn, q, k, recv
+    if isinstance(f, ast.Attribute) and _simple(f.value) and f.attr.startswith(
+        '_') and not f.attr.startswith('__') and not (
+            isinstance(f.value, ast.Name) and f.value.id in ('self', 'cls')):
+      # `<object>._helper(...)`: a private instance method that exactly one
+      # class of this module defines (the object's class is taken to be that
+      # one: private names are not shared between classes here)
+      owners = [(cn, ms[f.attr]) for cn, ms in self.class_methods.items()
+                if ms.get(f.attr) is not None]
+      if len(owners) == 1 and _kind(owners[0][1]) == 'instance' and \
+          self.method_names.get(f.attr, 0) == 1:
+        cn, fn = owners[0]
+        return fn, '%s.%s' % (cn, f.attr), 'instance', f.value
+      return None
+    if isinstance(f, ast.Attribute):
       return None
     if isinstance(f, ast.Name):
       # a closure defined directly in the caller's body (and never rebound)
@@ -504,7 +516,9 @@ class Inliner(object):
     mapping, prefix, rename = {}, [], {}
     if implicit is not None:
       if kind == 'instance':
-        if recv != 'self' or implicit != 'self':
+        if isinstance(recv, ast.AST):
+          mapping[implicit] = recv  # foreign receiver expression
+        elif recv != 'self' or implicit != 'self':
           mapping[implicit] = ast.Name(id=recv, ctx=ast.Load())
       else:  # classmethod
         if recv == 'cls':
